@@ -458,6 +458,14 @@ def _scenario_ops(kind, n):
                 yield ('add', i // 2, (i // 2) % 7)            # re-add: same priority, new arrival position
             if i % 5 == 4:
                 yield ('remove', i // 3, None)
+    elif kind == 'purge':
+        # many scattered removals (70 % of all entries, far more dead than live entries), then the rest is drained:
+        # size-triggered clean-ups of dead entries must keep the priority order
+        for i in range(n):
+            yield ('add', i, (i * 37) % 101)
+        for i in range(n):
+            if i % 10 < 7:
+                yield ('remove', i, None)
     else:
         raise AssertionError(kind)
 
@@ -576,7 +584,7 @@ DIRECTED_KINDS = ('ascending', 'descending', 'equal', 'alternating', 'churn')
 
 def directed_plan(tier):
     """(kind, number of tasks, size factor); at the native factor the sorted backend splits beyond ~22 000 entries."""
-    plan = [(k, 40000, None) for k in DIRECTED_KINDS]
+    plan = [(k, 40000, None) for k in DIRECTED_KINDS] + [('purge', 300, None), ('purge', 3000, None)]
     if tier != 'quick':
         plan += [(k, 80000, None) for k in DIRECTED_KINDS] + [(k, 6000, 8) for k in DIRECTED_KINDS]
     return plan
